@@ -1,4 +1,5 @@
 """C02 — a matching value never fails the assertion."""
+import likestream
 import semprops
 
 
@@ -14,6 +15,7 @@ def run(res):
                 if failing <= 3:
                     res.violation("failing-input", "the value satisfies the pattern but the assertion failed with %s"
                                   % (semprops.semstage.real_entries(c),), {"case": semprops.describe(c), "value_model": c["value_model"]})
+    likestream.run(res, "complete")
     semprops.finish(res, "C02", cases, bad, sem_dis, na, nc, failing, matching,
                     "the shared semantic corpus (see C01); fields are listed in shuffled order, repeated, omitted under `..`; empty "
                     "collections, boundary values, sets needing backtracking; non-trivial = triples the specification says match",
